@@ -1031,6 +1031,7 @@ func main() {
 		runOps(r, fmt.Sprintf("gen-%d", i), strings.Join(di.desc, ","), doc, e, opsList, r.Pick(8, 20), true)
 	}
 	treeMatrix(r, e, opsList)
+	versionMatrix(r, e, opsList)
 
 	files := corpusFiles()
 	budget := r.Pick(3<<20, 120<<20)
